@@ -25,6 +25,7 @@ import (
 	dtlsstate "github.com/pion/dtls/v3/internal/state"
 	"github.com/pion/dtls/v3/pkg/crypto/elliptic"
 	"github.com/pion/dtls/v3/pkg/protocol"
+	"github.com/pion/dtls/v3/pkg/protocol/alert"
 	"github.com/pion/dtls/v3/pkg/protocol/extension"
 	extension13 "github.com/pion/dtls/v3/pkg/protocol/extension/dtls13"
 	"github.com/pion/dtls/v3/pkg/protocol/handshake"
@@ -95,7 +96,15 @@ type c11Cfg struct {
 	MTU        int    `json:"mtu"`
 	Key2       int    `json:"key2"` // server: key type of a second certificate, for the name "alt.verif" (0 none)
 	SNI        int    `json:"sni"`  // client: 0 = connects to "server.verif", 1 = to "alt.verif"
+	Custom     bool   `json:"custom"` // WithCustomCipherSuites: one user-supplied suite (id 0xFFFE, AES-128-GCM/SHA-256, ECDHE-ECDSA)
 }
+
+// c11CustomSuite is a user-supplied cipher suite under a private identifier.
+type c11CustomSuite struct {
+	ciphersuite.TLSEcdheEcdsaWithAes128GcmSha256
+}
+
+func (*c11CustomSuite) ID() CipherSuiteID { return 0xFFFE }
 
 func c11Version(v int) protocol.Version {
 	switch v {
@@ -191,6 +200,9 @@ func (d c11Cfg) build(isClient bool, store SessionStore) *dtlsConfig {
 	}
 	if d.Store && store != nil {
 		c.sessionStore = store
+	}
+	if d.Custom {
+		c.customCipherSuites = func() []CipherSuite { return []CipherSuite{&c11CustomSuite{}} }
 	}
 	if d.MTU > 0 {
 		c.MTU = d.MTU
@@ -294,6 +306,7 @@ type c11Side struct {
 	PeerKey  int      `json:"peer_key"` // key type of the leaf of PeerCertificates: 1 Ed25519, 2 ECDSA, 3 RSA (0 none)
 	PeerName string   `json:"peer_name"`
 	MSHash   string   `json:"ms_hash"` // DTLS 1.2: hash of the master secret in force (in-package)
+	Hidden   bool     `json:"hidden"`  // class sent: the alert went out protected (not readable on the wire)
 }
 
 // c11Steer describes what an on-path party or a rogue server does to one association (all zero = nothing).
@@ -302,8 +315,10 @@ type c11Steer struct {
 	CH1ALPN      []int `json:"ch1_alpn"`       // its ALPN offer replaced
 	CH1StripEMS  bool  `json:"ch1_strip_ems"`  // its extended_master_secret extension removed
 	CH1StripSNI  bool  `json:"ch1_strip_sni"`  // its server_name extension removed
-	CH1StripVers bool  `json:"ch1_strip_vers"` // its supported_versions removed and the datagram forwarded twice
+	CH1StripVers bool  `json:"ch1_strip_vers"` // its supported_versions removed
+	Twice        bool  `json:"twice"`          // ... and the rewritten datagram forwarded twice (second copy: next record number)
 	SHALPN       int   `json:"sh_alpn"`        // rogue server: the ServerHello names protocol "p<k>" (0 = untouched)
+	SHSuite      int   `json:"sh_suite"`       // ServerHello hook: the ServerHello names this cipher suite (0 = untouched)
 	Applied      int   `json:"applied"`        // how many datagrams were rewritten
 }
 
@@ -960,6 +975,17 @@ func runC11Opt(t *testing.T, id int, gen string, c, s c11Cfg, resume bool, mask 
 		c11Classify(x.side, x.p.Err, x.p.Name, res.Alerts)
 		c11Observe(x.p, x.side)
 	}
+	// an alert that went out PROTECTED (DTLS 1.3, handshake epoch) is not readable on the wire: the side whose error
+	// carries an alert which its peer reports having received did send it
+	for _, x := range []struct {
+		p           *vPeer
+		side, other *c11Side
+	}{{lab.Client, &res.Client, &res.Server}, {lab.Server, &res.Server, &res.Client}} {
+		var a *alert.Alert
+		if x.side.Class == "err" && x.other.Class == "recv" && errors.As(x.p.Err, &a) && int(a.Description) == x.other.Alert {
+			x.side.Class, x.side.Alert, x.side.Level, x.side.Hidden = "sent", int(a.Description), int(a.Level), true
+		}
+	}
 	if lab.established() {
 		lab.Client.startReader()
 		lab.Server.startReader()
@@ -1453,6 +1479,7 @@ type c11Job struct {
 	c, s   c11Cfg
 	resume bool
 	mask   []string
+	opt    c11Opt
 }
 
 // reduced lattice: two values per dimension, every combination
